@@ -167,6 +167,9 @@ func collectEffects(pa core.Path, env pathEnv, files map[ssa.Value]string, depth
 		case "os.OpenFile":
 			cl, _ := classifyPath(args[0], env)
 			fl, _ := core.ConstInt(args[1])
+			if cl == "other" && fl&oCREATE != 0 && fl&oEXCL != 0 {
+				cl = "temp" // a file created exclusively under a name of its own
+			}
 			out = append(out, fileEffect{op: "open", path: cl, flags: fl, at: i})
 			files[i.(ssa.Value)] = cl
 		case "os.Create":
@@ -252,6 +255,7 @@ func forEachSetPath(c *core.Ctx, f func(pa core.Path, eff []fileEffect)) bool {
 }
 
 func c18r1(c *core.Ctx) {
+	tempFileExclusive(c)
 	set := storageSet(c.P)
 	bad := map[string]ssa.Instruction{}
 	nOpen, nRename := 0, 0
@@ -884,11 +888,15 @@ func c19r2(c *core.Ctx) {
 	var rename ssa.Instruction
 	if !forEachSetPath(c, func(pa core.Path, eff []fileEffect) {
 		var seq []string
+		exclusiveRetry := true
 		for _, e := range eff {
 			switch e.op {
 			case "open", "write", "close", "rename", "defer-close":
 				if e.op == "open" && !writable(e.flags) {
 					continue
+				}
+				if e.op == "open" && e.flags&oEXCL == 0 {
+					exclusiveRetry = false
 				}
 				s := e.op + ":" + e.path
 				if e.op == "rename" {
@@ -914,12 +922,22 @@ func c19r2(c *core.Ctx) {
 		}
 		if failing {
 			// allowed only if the returned error is the rename's own
-			if !core.AnySource(res(ret)[0], func(s ssa.Value) bool { call, ok := s.(*ssa.Call); return ok && core.IsCall(call, "os.Rename") }) {
+			isRename := func(s ssa.Value) bool { call, ok := s.(*ssa.Call); return ok && core.IsCall(call, "os.Rename") }
+			if rv := pa.ResolveAt(len(pa)-1, res(ret)[0]); !core.AnySource(res(ret)[0], isRename) && (rv == nil || !core.AnySource(rv, isRename)) {
 				bad["rename-on-failing-path"] = pa
 			}
 		}
 		want := "open:temp write:temp close:temp rename:temp->dest"
-		got := strings.Join(seq, " ")
+		// an exclusive create that is retried under another name ( for { f, err := open(random name, O_EXCL); if exists { continue } } )
+		// is one open as far as the file that gets written is concerned
+		var seq2 []string
+		for k, x := range seq {
+			if x == "open:temp" && k > 0 && seq[k-1] == "open:temp" && exclusiveRetry {
+				continue
+			}
+			seq2 = append(seq2, x)
+		}
+		got := strings.Join(seq2, " ")
 		if got != want {
 			bad["order:"+got] = pa
 		} else {
@@ -966,6 +984,7 @@ func c19r2(c *core.Ctx) {
 		}
 	})
 	c.Check(okFlags, "temp-open-flags@"+fname(set), set.Pos(), "the temp file is opened with O_CREATE and O_TRUNC (or O_EXCL)", "the temp file is not opened with O_CREATE|O_TRUNC or O_EXCL: a stale temp file of an interrupted write leaks into the next value")
+	tempFileExclusive(c)
 }
 
 func errNilOfAny(pred func(ssa.Instruction) bool, idx int) core.CondFact {
@@ -1028,6 +1047,20 @@ func c19r3(c *core.Ctx) {
 							suffixes[s] = true
 						}
 					}
+				}
+			}
+			// a name of its own: <random part> + const in the function that creates the file exclusively
+			if core.IsCall(i, "os.OpenFile") {
+				if fl, isK := core.ConstInt(core.Args(i)[1]); isK && fl&oEXCL != 0 {
+					core.Instrs(g, func(j ssa.Instruction) {
+						if b, ok := j.(*ssa.BinOp); ok && b.Op == token.ADD {
+							if sfx, isK := core.ConstString(b.Y); isK {
+								if _, isCall := b.X.(*ssa.Call); isCall {
+									suffixes[sfx] = true
+								}
+							}
+						}
+					})
 				}
 			}
 			if h := core.Callee(i); h != nil && core.InModule(h) && h.Blocks != nil && d > 0 {
@@ -1352,4 +1385,31 @@ func readShapes(p *core.Program) []string {
 	}
 	walk(get, pathEnv{}, func(v ssa.Value) bool { return v == ssa.Value(key) }, 2)
 	return shapes
+}
+
+// tempFileExclusive: the temporary file of a write is created exclusively (O_EXCL), under a name no other write and no key has.
+// A temporary name that is a function of the key — <file of the key> + ".tmp" — is itself the file of a key: Set("state") opens
+// the file of the live key "state.tmp" truncating and renames it away (C18: a get of that key answers not-found although it was
+// set and never deleted; C19: another key is not "untouched" — it is emptied when the process dies inside the write). And two
+// overlapping Sets of one key (two connections saving an entity) share the file: the second open truncates what the first has
+// written, the loser of the rename race writes into the live value in place — the very thing the temporary file was for.
+func tempFileExclusive(c *core.Ctx) {
+	set := storageSet(c.P)
+	if set == nil {
+		return
+	}
+	var shared ssa.Instruction
+	forEachSetPath(c, func(pa core.Path, eff []fileEffect) {
+		for _, e := range eff {
+			if e.op == "open" && (e.path == "temp" || e.path == "temp?") && writable(e.flags) && e.flags&oEXCL == 0 {
+				shared = e.at
+			}
+		}
+	})
+	pos := set.Pos()
+	if shared != nil {
+		pos = posOf(shared)
+	}
+	c.Check(shared == nil, "temp-file-exclusive@"+fname(set), pos, "the temporary file is created exclusively",
+		"the temporary file of a write is opened without O_EXCL under a name derived from the key: it is the file of another key (Set(k) destroys the live key k+suffix) and it is shared by overlapping writes of one key (the stored value becomes a mixture, or is written in place)")
 }
